@@ -19,6 +19,31 @@ use vhost::VhostBackend;
 
 thread_local! { static TID: Cell<u64> = const { Cell::new(0) }; }
 
+/// Hand-over forcing (controlled schedules only): the callers of one case share one CPU, and a caller that
+/// has just been released from its `sent` hold point runs in the idle scheduling class until its next hook.
+/// If the endpoint lock is (wrongly) released between writing the request and reading the answer, the caller
+/// blocked on that lock is woken on the same CPU, preempts the idle-class holder at once and wins the lock --
+/// the hidden window becomes an observed `sent` inside the other caller's transaction instead of a lucky race.
+static FORCE_HANDOVER: std::sync::atomic::AtomicBool = std::sync::atomic::AtomicBool::new(false);
+static KTIDS: Mutex<Vec<i32>> = Mutex::new(Vec::new());
+
+fn set_sched(tid: i32, idle: bool) {
+    let p = libc::sched_param { sched_priority: 0 };
+    // SAFETY: plain syscall on a thread id of this process; failure is harmless (only weakens the forcing).
+    unsafe {
+        libc::sched_setscheduler(tid, if idle { libc::SCHED_IDLE } else { libc::SCHED_OTHER }, &p);
+    }
+}
+
+fn pin_to(cpu: usize) {
+    // SAFETY: cpu_set_t manipulated through the libc helpers; failure is harmless.
+    unsafe {
+        let mut set: libc::cpu_set_t = std::mem::zeroed();
+        libc::CPU_SET(cpu, &mut set);
+        libc::sched_setaffinity(0, std::mem::size_of::<libc::cpu_set_t>(), &set);
+    }
+}
+
 #[derive(Default)]
 struct CtlState {
     events: Vec<Value>,
@@ -49,6 +74,10 @@ impl Ctl {
         } else {
             "before_recv"
         };
+        let force = FORCE_HANDOVER.load(std::sync::atomic::Ordering::SeqCst);
+        if force && kind != "sent" {
+            set_sched(0, false);
+        }
         let mut s = self.m.lock().unwrap();
         s.events.push(json!({"ev": kind, "t": tid}));
         if !s.hold_enabled || kind == "received" {
@@ -62,6 +91,10 @@ impl Ctl {
         }
         s.release.retain(|x| *x != tid);
         s.held.retain(|x| *x != tid);
+        drop(s);
+        if force && kind == "sent" {
+            set_sched(0, true);
+        }
     }
     /// wait until no new event arrived for `quiet`
     fn quiesce(&self, quiet: Duration) {
@@ -246,7 +279,8 @@ pub fn run(cases: &[Value], trace: &mut Trace, _seed: u64) {
             c2.hit(p);
         }
     })));
-    for case in cases {
+    let ncpu = std::thread::available_parallelism().map(|n| n.get()).unwrap_or(1);
+    for (case_no, case) in cases.iter().enumerate() {
         let ep_name = case["ep"].as_str().unwrap();
         let kinds: Vec<String> = case["kinds"].as_array().unwrap().iter().map(|k| k.as_str().unwrap().to_string()).collect();
         let free = case["free"].as_bool().unwrap_or(false);
@@ -288,6 +322,9 @@ pub fn run(cases: &[Value], trace: &mut Trace, _seed: u64) {
             s.hold_enabled = !free;
         }
         trace.emit(json!({"ev": "reset", "id": case["id"], "ep": ep_name, "kinds": kinds, "free": free}));
+        FORCE_HANDOVER.store(!free, std::sync::atomic::Ordering::SeqCst);
+        KTIDS.lock().unwrap().clear();
+        let cpu = (std::process::id() as usize + case_no) % ncpu;
         let mut handles = Vec::new();
         let start = |t: u64, handles: &mut Vec<std::thread::JoinHandle<()>>, iters: u64| {
             let ep2 = ep.clone();
@@ -296,9 +333,17 @@ pub fn run(cases: &[Value], trace: &mut Trace, _seed: u64) {
             ctl.log(json!({"ev": "start", "t": t}));
             handles.push(std::thread::spawn(move || {
                 TID.with(|x| x.set(t));
+                if FORCE_HANDOVER.load(std::sync::atomic::Ordering::SeqCst) {
+                    pin_to(cpu);
+                    // SAFETY: gettid has no preconditions.
+                    KTIDS.lock().unwrap().push(unsafe { libc::gettid() });
+                }
                 for _ in 0..iters {
                     let r = std::panic::catch_unwind(std::panic::AssertUnwindSafe(|| do_call(&ep2, &kind, t)));
                     let (ok, own) = r.unwrap_or((false, false));
+                    if FORCE_HANDOVER.load(std::sync::atomic::Ordering::SeqCst) {
+                        set_sched(0, false);
+                    }
                     ctl2.log(json!({"ev": "done", "t": t, "ok": ok, "own": own}));
                 }
             }));
@@ -351,7 +396,13 @@ pub fn run(cases: &[Value], trace: &mut Trace, _seed: u64) {
                 s.release.extend(h);
                 ctl.cv.notify_all();
             }
-            if t0.elapsed() > Duration::from_millis(if free { 20000 } else { 2000 }) {
+            if !free && t0.elapsed() > Duration::from_millis(100) {
+                // never let the idle class turn slowness into a verdict: back to the normal class while draining
+                for k in KTIDS.lock().unwrap().iter() {
+                    set_sched(*k, false);
+                }
+            }
+            if t0.elapsed() > Duration::from_millis(if free { 20000 } else { 5000 }) {
                 hang = true;
                 let _ = bdup.shutdown(std::net::Shutdown::Both);
                 let mut s = ctl.m.lock().unwrap();
@@ -392,5 +443,6 @@ pub fn run(cases: &[Value], trace: &mut Trace, _seed: u64) {
         }
         trace.emit(json!({"ev": "end", "hang": hang}));
     }
+    FORCE_HANDOVER.store(false, std::sync::atomic::Ordering::SeqCst);
     vhost::verif::set_controller(None);
 }
